@@ -3,7 +3,19 @@ the harness dump): rightmost-derivation replay, Earley recognition / viable pref
 enumeration and sampling.  These are the oracles of the property predicates (DESIGN §3.4 step 4);
 they share no code with the Lean model or with yaccgo."""
 import itertools
+import json
 import random
+
+
+def _unq(s):
+    """names are written by the harness with strconv.QuoteToASCII"""
+    s = s.strip()
+    if len(s) >= 2 and s[0] == '"':
+        try:
+            return json.loads(s)
+        except Exception:
+            return s[1:-1]
+    return s
 
 
 class G:
@@ -17,8 +29,9 @@ class G:
             if f[0] == "GRAMMAR":
                 self.nsyms, self.nT = int(f[1]), int(f[2])
             elif f[0] == "SYM":
+                g = l.split(" ", 8)
                 self.syms[int(f[1])] = {"nt": f[2] == "1", "value": int(f[3]), "prec": int(f[4]), "assoc": int(f[5]),
-                                        "nullable": f[6] == "1", "name": f[7], "tag": f[8] if len(f) > 8 else ""}
+                                        "nullable": f[6] == "1", "name": _unq(g[7]), "tag": _unq(g[8]) if len(g) > 8 else ""}
             elif f[0] == "RULE":
                 self.rules.append((int(f[2]), [int(x) for x in f[4:]], int(f[3])))
         self.terms = list(range(2, self.nT + 1))
